@@ -122,6 +122,10 @@ func (g *Gen) GlobalUses() map[string]*GlobalUse {
 								derived[in] = d
 							}
 						}
+					case *ssa.Slice:
+						if d, ok := derived[in.X]; ok {
+							derived[in] = d
+						}
 					case *ssa.ChangeType:
 						if d, ok := derived[in.X]; ok {
 							derived[in] = d
@@ -146,9 +150,25 @@ func (g *Gen) GlobalUses() map[string]*GlobalUse {
 					} else if d, ok := derived[in.Addr]; ok {
 						add(&get(d).Mutators, key)
 					}
+					// a reference to global-reachable mutable memory stored into another object escapes:
+					// from then on anyone holding that object can write the shared memory
+					if d, ok := derived[in.Val]; ok && get(d).Mutable && escapingRef(in.Val.Type()) {
+						if _, isG := in.Addr.(*ssa.Global); !isG {
+							add(&get(d).Mutators, key+" (stores a reference to it into another object)")
+						}
+					}
+				case *ssa.Return:
+					for _, r := range in.Results {
+						if d, ok := derived[r]; ok && get(d).Mutable && escapingRef(r.Type()) {
+							add(&get(d).Mutators, key+" (returns a reference to it)")
+						}
+					}
 				case *ssa.MapUpdate:
 					if d, ok := derived[in.Map]; ok {
 						add(&get(d).Mutators, key)
+					}
+					if d, ok := derived[in.Value]; ok && get(d).Mutable && escapingRef(in.Value.Type()) {
+						add(&get(d).Mutators, key+" (stores a reference to it into a map)")
 					}
 				case ssa.CallInstruction:
 					cm := in.Common()
@@ -197,6 +217,21 @@ func (g *Gen) GlobalUses() map[string]*GlobalUse {
 		sort.Strings(u.Readers)
 	}
 	return out
+}
+
+// escapingRef: a value of this type gives write access to the memory it refers to (error values are
+// immutable by convention and excluded).
+func escapingRef(t types.Type) bool {
+	if isErrorType(t) {
+		return false
+	}
+	switch t.Underlying().(type) {
+	case *types.Pointer, *types.Map, *types.Slice:
+		return true
+	case *types.Interface:
+		return true
+	}
+	return false
 }
 
 func inRepoPkg(p *ssa.Package) bool {
